@@ -2,7 +2,8 @@ CONSTANTS
   Keys <- MCKeys
   NB = 2
   BucketOf <- MCBucketOf
-  NG = 2
+  GensOf <- MCGensOf
+  Watch = {1, 2}
   GenTs <- MCGenTs
   Sizes = {1, 2, 3}
   WMs <- MCWMs
